@@ -181,9 +181,13 @@ def _splits_delete(tier):
                     continue
                 if tier == 'quick' and (prefix == 2 or (prefix == 1 and (older >= 3 or newer >= 6)) or (prefix == 3 and older in (0, 1) and newer in (1, 2, 4))):
                     continue
-                out.append({'prefix': prefix, 'older': older, 'newer': newer, 'third': False})
-                if tier != 'quick' and newer in (0, 4, 5):
-                    out.append({'prefix': prefix, 'older': older, 'newer': newer, 'third': True})
+                for pre in ('ppn', 'not ppn'):
+                    if tier == 'quick':
+                        # quick: the literal-FORCE second older site is present for even variants only
+                        pre = pre + (' and ppb' if (older + newer + prefix) % 2 == 0 else ' and not ppb')
+                    out.append({'prefix': prefix, 'older': older, 'newer': newer, 'third': False, '_pre': pre})
+                    if tier != 'quick' and newer in (0, 4, 5):
+                        out.append({'prefix': prefix, 'older': older, 'newer': newer, 'third': True, '_pre': pre})
     return out
 
 
